@@ -272,13 +272,7 @@ Section Compositional.
   Hypothesis LC : line_compositional read.
 
   Lemma read_nil : read [] = inl res_nil.
-  Proof.
-    destruct (lc_blank read LC [] eq_refl) as [n Hn].
-    pose proof (lc_app read LC [] (@cons str (@nil ascii) (@nil str))) as H. cbn [app] in H. rewrite Hn in H.
-    destruct (read []) as [[t y e]|err]; [|discriminate].
-    cbn in H. inversion H as [[Ht Hy He]].
-    destruct t; [|discriminate]. replace y with 0 by lia. replace e with 0 by lia. reflexivity.
-  Qed.
+  Proof. exact (lc_nil read LC). Qed.
 
   Lemma stream_read_cons l ls :
     rd_stream (read (l :: ls)) = sapp (rd_stream (read [l])) (rd_stream (read ls)).
@@ -288,16 +282,27 @@ Section Compositional.
     rd_stream (read (a ++ b)) = sapp (rd_stream (read a)) (rd_stream (read b)).
   Proof. rewrite (lc_app read LC), rd_stream_app. reflexivity. Qed.
 
+  Lemma blanks_harmless_tail l ls : blanks_harmless read (l :: ls) -> blanks_harmless read ls.
+  Proof. intros [H|H]; [left; exact H | right; inversion H; assumption]. Qed.
+
+  Lemma blanks_harmless_app a b : blanks_harmless read (a ++ b) -> blanks_harmless read a /\ blanks_harmless read b.
+  Proof.
+    intros [H|H]; [split; left; exact H|]. apply Forall_app in H. destruct H. split; right; assumption.
+  Qed.
+
   (** line terminators and blank lines do not show in the stream *)
   Lemma stream_read_nl_filter ls :
+    blanks_harmless read ls ->
     rd_stream (read (map nl ls)) = rd_stream (read (filter nonblank ls)).
   Proof.
-    induction ls as [|l ls IH]; [reflexivity|]. cbn [map filter].
-    rewrite (stream_read_cons (nl l) (map nl ls)), IH, (lc_strip read LC (nl l) l (strip_nl l)).
+    induction ls as [|l ls IH]; intros Hb; [reflexivity|]. cbn [map filter].
+    rewrite (stream_read_cons (nl l) (map nl ls)), (IH (blanks_harmless_tail l ls Hb)),
+      (lc_strip read LC (nl l) l (strip_nl l)).
     destruct (nonblank l) eqn:E.
     - rewrite (stream_read_cons l (filter nonblank ls)). reflexivity.
-    - destruct (lc_blank read LC l (nonblank_false l E)) as [n Hn]. rewrite Hn. cbn [rd_stream r_triples].
-      apply sapp_nil_l.
+    - destruct Hb as [Hs|Hf].
+      + destruct (Hs l (nonblank_false l E)) as [n Hn]. rewrite Hn. cbn [rd_stream r_triples]. apply sapp_nil_l.
+      + inversion Hf; subst. congruence.
   Qed.
 
   Lemma stream_read_concat lss :
@@ -312,11 +317,14 @@ Section Compositional.
       other through any of the line readers, deliver the stream of the single
       raw string *)
   Lemma stream_pieces (lss : list (list str)) :
+    blanks_harmless read (List.concat lss) ->
     sconcat (map (fun ls => rd_stream (read (map nl ls))) lss)
     = rd_stream (read (filter nonblank (List.concat lss))).
   Proof.
-    rewrite <- concat_filter_map, stream_read_concat, map_map.
-    f_equal. apply map_ext. intros ls. apply stream_read_nl_filter.
+    intros Hb. rewrite <- concat_filter_map, stream_read_concat, map_map.
+    f_equal. induction lss as [|ls lss IH]; [reflexivity|].
+    cbn [List.concat] in Hb. destruct (blanks_harmless_app _ _ Hb) as [H1 H2].
+    cbn [map]. rewrite (stream_read_nl_filter ls H1), (IH H2). reflexivity.
   Qed.
 End Compositional.
 
@@ -456,27 +464,27 @@ Section Partition.
 
   (** *** C08(a): any partition of the lines into files, plain or gz / xz compressed *)
   Theorem partition_invisible_files fmt read o o' cm lss stored :
-    line_family fmt read -> line_compositional read -> cm_plain cm ->
+    line_family fmt read -> line_compositional read -> blanks_harmless read (List.concat lss) -> cm_plain cm ->
     Forall (Forall line_ok) lss ->
     Forall2 (stored_as gunzip unxz cm) (map render_lines lss) stored ->
     rd_stream (chan o fmt cm (SFiles stored))
     = rd_stream (chan o' fmt None (SRaw (render_lines (List.concat lss)))).
   Proof.
-    intros F LC C Hok Hst.
+    intros F LC Hb C Hok Hst.
     rewrite (chan_files _ _ _ _ _ F C), (multi_from_stream _ _ _ _ _ _ F), (pieces_stream _ _ _ _ _ F Hok Hst).
-    rewrite (stream_pieces read LC), (chan_raw _ _ _ _ F), lines_raw_render by (apply concat_line_ok; exact Hok).
+    rewrite (stream_pieces read LC _ Hb), (chan_raw _ _ _ _ F), lines_raw_render by (apply concat_line_ok; exact Hok).
     reflexivity.
   Qed.
 
   (** one file *)
   Theorem partition_invisible_file fmt read o o' cm ls st :
-    line_family fmt read -> line_compositional read -> cm_plain cm ->
+    line_family fmt read -> line_compositional read -> blanks_harmless read ls -> cm_plain cm ->
     Forall line_ok ls -> stored_as gunzip unxz cm (render_lines ls) st ->
     rd_stream (chan o fmt cm (SFile st)) = rd_stream (chan o' fmt None (SRaw (render_lines ls))).
   Proof.
-    intros F LC C Hok Hst.
+    intros F LC Hb C Hok Hst.
     rewrite (chan_file _ _ _ _ _ F C), (lines_of_stored _ _ _ Hok Hst). cbn [with_lines].
-    rewrite (stream_read_nl_filter read LC), (chan_raw _ _ _ _ F), lines_raw_render by exact Hok.
+    rewrite (stream_read_nl_filter read LC _ Hb), (chan_raw _ _ _ _ F), lines_raw_render by exact Hok.
     reflexivity.
   Qed.
 
@@ -499,13 +507,13 @@ Section Partition.
   Qed.
 
   Theorem partition_invisible_zip fmt read o o' archive lss :
-    line_family fmt read -> line_compositional read ->
+    line_family fmt read -> line_compositional read -> blanks_harmless read (List.concat lss) ->
     Forall (Forall line_ok) lss -> archive_holds archive lss ->
     rd_stream (chan o fmt (Some c_ZIP) (SFile archive))
     = rd_stream (chan o' fmt None (SRaw (render_lines (List.concat lss)))).
   Proof.
-    intros F LC Hok Ha. unfold channel at 1. cbn [kind_of]. rewrite (dispatch_zip_file _ _ F). cbn [run_yielder].
-    rewrite (zip_one_stream _ _ _ _ _ F Hok Ha), (stream_pieces read LC), (chan_raw _ _ _ _ F),
+    intros F LC Hb Hok Ha. unfold channel at 1. cbn [kind_of]. rewrite (dispatch_zip_file _ _ F). cbn [run_yielder].
+    rewrite (zip_one_stream _ _ _ _ _ F Hok Ha), (stream_pieces read LC _ Hb), (chan_raw _ _ _ _ F),
       lines_raw_render by (apply concat_line_ok; exact Hok).
     reflexivity.
   Qed.
@@ -533,25 +541,25 @@ Section Partition.
   Qed.
 
   Theorem partition_invisible_zips fmt read o o' archives lsss :
-    line_family fmt read -> line_compositional read ->
+    line_family fmt read -> line_compositional read -> blanks_harmless read (List.concat (List.concat lsss)) ->
     Forall (Forall (Forall line_ok)) lsss -> Forall2 archive_holds archives lsss ->
     rd_stream (chan o fmt (Some c_ZIP) (SFiles archives))
     = rd_stream (chan o' fmt None (SRaw (render_lines (List.concat (List.concat lsss))))).
   Proof.
-    intros F LC Hok Ha.
+    intros F LC Hb Hok Ha.
     assert (Hgen : forall (k : nat) (oo : nat -> nat -> rorc) archives lsss,
                Forall (Forall (Forall line_ok)) lsss -> Forall2 archive_holds archives lsss ->
                sconcat (map (fun ia => rd_stream (zip_one pyfloat read_nt read_ttl gunzip unxz unzip rdf_parse
                                                           (oo (fst ia)) fmt (snd (family fmt)) (snd ia)))
                             (combine (seq k (List.length archives)) archives))
                = sconcat (map (fun ls => rd_stream (read (map nl ls))) (List.concat lsss))).
-    { clear Hok Ha archives lsss. intros k oo archives lsss Hok Ha. revert k.
+    { clear Hb Hok Ha archives lsss. intros k oo archives lsss Hok Ha. revert k.
       induction Ha as [|a lss archives lsss Ha1 _ IH]; intros k; [reflexivity|].
       inversion Hok; subst. cbn [List.length seq combine map sconcat fold_right List.concat fst snd].
       rewrite map_app, sconcat_app, (zip_one_stream _ _ _ _ _ F H1 Ha1). f_equal. apply IH. assumption. }
     assert (Hraw : sconcat (map (fun ls => rd_stream (read (map nl ls))) (List.concat lsss))
                    = rd_stream (chan o' fmt None (SRaw (render_lines (List.concat (List.concat lsss)))))).
-    { rewrite (stream_pieces read LC), (chan_raw _ _ _ _ F), lines_raw_render; [reflexivity|].
+    { rewrite (stream_pieces read LC _ Hb), (chan_raw _ _ _ _ F), lines_raw_render; [reflexivity|].
       apply concat_line_ok, Forall_concat. exact Hok. }
     unfold channel at 1. cbn [kind_of]. rewrite (dispatch_zip_files _ _ _ F).
     destruct (Nat.eqb (List.length archives) 1) eqn:E.
@@ -583,11 +591,11 @@ Proof. reflexivity. Qed.
 Theorem read_tsv_compositional pyfloat : line_compositional (read_tsv pyfloat).
 Proof.
   constructor.
+  - reflexivity.
   - intros a b. induction a as [|l a IH]; cbn [app read_tsv].
     + rewrite rd_app_nil_l. reflexivity.
     + rewrite IH, rd_app_assoc. reflexivity.
   - intros l l' H. cbn [read_tsv]. unfold tsv_line. rewrite H. reflexivity.
-  - intros l H. exists 1. cbn [read_tsv]. unfold tsv_line. rewrite H. reflexivity.
 Qed.
 
 (** *** strings *)
